@@ -240,6 +240,9 @@ class PeerCase:
                     d = ch.recv_some()
                     if not d:
                         slog["ctl_eof"] = "reset" if ch.reset else ("clean" if ch.clean_eof or ch.tls is None else "truncated")
+                        self._save_raw(st)
+                        if ch.tls is not None and ch.clean_eof and s.get("tls_close_clean", True):
+                            ch.tls_shutdown(wait_peer=False)       # answer the client's close-notify
                         self._drop_data(st)
                         ch.close()
                         return
@@ -263,6 +266,24 @@ class PeerCase:
                         self._drop_data(st)
                         ch.close()
                         return
+                if r.get("stoptls") and ch.tls is not None:
+                    # REIN: back to clear text - exchange close-notify, keep the TCP connection
+                    ch.tls_shutdown(wait_peer=True)
+                    rest = b""
+                    try:
+                        rest = ch.inb.read()          # clear-text bytes that followed the client's close-notify
+                    except Exception:
+                        pass
+                    ch.tls = None
+                    ch.inb = ch.outb = None
+                    ch.plain_buf = bytearray(rest)
+                if r.get("reset_after"):
+                    self._save_raw(st)
+                    self._drop_data(st)
+                    time.sleep(0.02)
+                    ch.close(rst=True)        # abortive close: the client's next read or write fails with ECONNRESET
+                    slog["ctl_eof"] = "peer-reset"
+                    return
                 if r.get("close_after"):
                     self._close_ctl(st)
                     return
@@ -277,7 +298,12 @@ class PeerCase:
             pass
         return False
 
+    def _save_raw(self, st):
+        ch = st["ch"]
+        st["slog"]["raw_in"] = bytes(ch.raw_in[:65536])
+
     def _close_ctl(self, st):
+        self._save_raw(st)
         ch, s, slog = st["ch"], st["s"], st["slog"]
         if ch.tls is not None and s.get("tls_close_clean", True):
             ch.tls_shutdown(wait_peer=True)
